@@ -1,6 +1,8 @@
 """C11 (marker <-> specifier bridge), C13 (equality/hash), C14 (Boolean laws), C10 (memoisation)."""
 from __future__ import annotations
 
+import re
+
 import itertools
 import json
 import os
@@ -76,7 +78,9 @@ def simple_specs():
     for v in ["3", "3.8", "3.8.0"]:
         out += [f"=={v}.*", f"!={v}.*"]
     out += [">=3.8,<3.9", ">=3.7,<4.0", ">=3.8.0,<3.9.0", "<3.8||>=3.9", "<3.8||>3.8", ">=3.8,<=3.8", "", "<empty>", ">=3.6,<3.10",
-            ">=3.8,<3.8.5", "<3||>=4"]
+            ">=3.8,<3.8.5", "<3||>=4",
+            # D4a shapes: exclusive post-release upper bound that is the next series of the lower bound
+            ">=3.7,<4.0.post1", ">=3.7.5,<3.8.post2"]
     return out
 
 
@@ -105,8 +109,7 @@ def run_c11(run: core.Run) -> None:
                 if got != want:
                     f = core.Failure(f"bridge|{m}|{value}", f"{value} in ({m}).specifier = {got} but the atom evaluates to {want}",
                                      {"op": "atom", "atom": [name, op, val, rev], "value": value})
-                    if mk.g2_applies([f'{name} {op} "{val}"'], env):
-                        f.family = "version-in-substring"
+                    f.family = mk.known_family([f'{name} {op} "{val}"'], env)
                     run.fail(f)
     for name in ("python_version", "python_full_version"):
         for text in simple_specs():
@@ -129,8 +132,11 @@ def run_c11(run: core.Run) -> None:
                 want = smem(spec, Version(value)) if not isinstance(spec, (EmptySpecifier, AnySpecifier)) else isinstance(spec, AnySpecifier)
                 got = ev(m, {"python_full_version": full, "python_version": f"{X}.{Y}"})
                 if got != want:
-                    run.fail(core.Failure(f"from-eval|{name}|{text}|{value}", f"from_specifier({name}, {text}) = {m} evaluates to {got} "
-                                          f"on {value}, the specifier admits: {want}", {"op": "from", "name": name, "spec": text, "value": value}))
+                    f = core.Failure(f"from-eval|{name}|{text}|{value}", f"from_specifier({name}, {text}) = {m} evaluates to {got} "
+                                     f"on {value}, the specifier admits: {want}", {"op": "from", "name": name, "spec": text, "value": value})
+                    if re.search(r"<\d+(\.\d+)*\.post\d+$", text):
+                        f.family = "compat-render-postrelease-max"
+                    run.fail(f)
     run.extra["oracle_evaluations"] = n_oracle
 
 
@@ -317,8 +323,9 @@ def run_c14(run: core.Run, n_spec: int, n_marker: int) -> None:
                 if ev(l, env) != ev(r, env):
                     f = core.Failure(f"mlaw|{name}|{'|'.join(ts)}", f"marker law {name} fails on {ts}: {l!r} vs {r!r}",
                                      {"op": "mlaw", "law": name, "texts": ts})
-                    if mk.g2_applies(ts, env):
-                        f.family = "version-in-substring"
+                    fam = mk.known_family(ts, env)
+                    if fam:
+                        f.family = fam
                         run.fail(f)
                         continue
                     run.fail(f)
